@@ -12,6 +12,7 @@ for P in "$@"; do
   out="$(VERIF_REPO="$wt" ./check "$P" --tier "${TIER:-quick}" --no-evidence 2>&1)"; rc=$?
   n=$(echo "$out" | grep -c '^VIOLATION')
   if [ $rc = 1 ]; then echo "$id vs $P: DETECTED ($n violation lines) $(echo "$out" | grep -m1 '^   \[' | cut -c1-160)";
-  else echo "$id vs $P: MISSED (rc=$rc) $(echo "$out" | grep -m1 HARNESS | cut -c1-200)"; fi
+  elif [ $rc = 0 ]; then echo "$id vs $P: MISSED (rc=0)";
+  else echo "$id vs $P: MISSED (rc=$rc, the check itself failed) $(echo "$out" | grep -m1 HARNESS | cut -c1-200)"; fi
 done
 git -C /repo worktree remove --force "$wt"
